@@ -398,7 +398,12 @@ def limit_edges(ctx):
 
 
 def run(ctx):
-    limit_edges(ctx)
+    try:
+        limit_edges(ctx)
+    except Exception as e:  # the code under test raising on a valid configuration is a verdict, not a harness error
+        if type(e).__module__.startswith("nssmon"):
+            raise
+        ctx.exception("raises", "target-mode geometry raised on a valid configuration (limit-edges)", e, {})
     ctx.require("limit-edges")
     nmax = ctx.pick(1500, 12000)
     allN = list(range(1, nmax + 1)) + [100000, 1000000]
